@@ -118,7 +118,7 @@ func ParseContracts(files map[string]string) (*ContractSet, error) {
 				name := strings.TrimSpace(m[1])
 				cur = &Contract{Pkg: pkg, Func: name, Opts: map[string]string{}, Loops: map[int]*LoopSpec{}, File: file, Line: ln}
 				key := pkg + "." + name
-				if strings.Contains(name, "/") || (strings.Contains(name, ".") && !strings.HasPrefix(name, "(") && isExternalName(name)) {
+				if strings.Contains(name, "/") || (strings.Contains(name, ".") && isExternalName(name)) {
 					cur.Pkg = ""
 					cs.Externs[name] = cur
 				} else {
@@ -284,6 +284,13 @@ func ParseContracts(files map[string]string) (*ContractSet, error) {
 }
 
 func isExternalName(n string) bool {
+	if strings.HasPrefix(n, "(") {
+		// methods: "(*bufio.Reader).Peek" is external, "(*HPACK).peek" is not
+		if i := strings.Index(n, ")"); i > 0 && strings.Contains(n[:i], ".") {
+			return true
+		}
+		return false
+	}
 	// in-package names look like "readInt" or "(*T).m" or "T.m"; external ones
 	// are written with their import path, e.g. "bytes.Equal", "(*bufio.Reader).Peek"
 	for _, p := range []string{"bytes.", "bufio.", "io.", "sync.", "errors.", "fmt.", "time.", "fasthttp.", "fastrand.", "rand.", "atomic.", "strconv."} {
